@@ -31,8 +31,41 @@ def default_dims(nd):
     return ["x", "y", "z"][:nd] if nd <= 3 else [f"x{i}" for i in range(nd)]
 
 
+INT_DTYPES = ["int64", "int32", "int16", "int8", "uint8", "uint16", "uint32"]
+
+
+def case_dtype(c):
+    return np.dtype(c["dtype"]) if c.get("dtype") else np.dtype(float)
+
+
+def rep_seq(xs, how, integral_ok):
+    """the same numbers in another legal representation"""
+    if how == "tuple":
+        return tuple(xs)
+    if how == "ndarray":
+        return np.array(xs, dtype=float)
+    if how == "float32" and all(float(np.float32(x)) == x for x in xs):
+        return np.array(xs, dtype=np.float32)
+    if how in ("int", "ndarray_int") and integral_ok and all(float(x).is_integer() for x in xs):
+        ints = [int(x) for x in xs]
+        return ints if how == "int" else np.array(ints, dtype=np.int64)
+    return list(xs)
+
+
+def rep_n(sh, how):
+    if how == "tuple":
+        return tuple(sh)
+    if how in ("int32", "uint8", "uint16", "int64"):
+        return np.array(sh, dtype=how)
+    if how == "npscalars":
+        kinds = [np.int16, np.uint8, np.int64, np.uint32]
+        return [kinds[i % 4](k) for i, k in enumerate(sh)]
+    return list(sh)
+
+
 def build(c):
-    """-> (field, dims).  Raises if the field itself cannot be constructed."""
+    """-> (field, dims, aux).  aux holds the caller-supplied containers (for before/after snapshots).
+    Raises if the field itself cannot be constructed."""
     sh = c["sh"]
     nd = len(sh)
     cell = [float(F(x)) for x in c["cell"]]
@@ -40,17 +73,152 @@ def build(c):
     p2 = [a + k * h for a, k, h in zip(p1, sh, cell)]
     dims = c.get("dims") or default_dims(nd)
     bc = "".join(dims[a] for a in c["periodic_axes"])
-    region = df.Region(p1=p1, p2=p2, dims=c.get("dims"))
-    mesh = df.Mesh(region=region, n=sh, bc=bc)
-    arr = np.array([float(F(x)) for x in c["vals"]], dtype=float).reshape(*sh, c["nvdim"])
+    prep = c.get("prep", "list")
+    p1a, p2a = rep_seq(p1, prep, True), rep_seq(p2, prep, True)
+    n_arg = rep_n(sh, c.get("nrep", "list"))
+    kwr = {}
+    if c.get("units") is not None:
+        kwr["units"] = list(c["units"])
+    region = df.Region(p1=p1a, p2=p2a, dims=c.get("dims"), **kwr)
+    mesh = df.Mesh(region=region, n=n_arg, bc=bc)
+    dt = case_dtype(c)
+    re = [F(x) for x in c["vals"]]
+    if dt.kind == "c":
+        im = [F(x) for x in c["vals_im"]]
+        arr = (np.array([float(x) for x in re]) + 1j * np.array([float(x) for x in im])).astype(dt)
+    elif dt.kind in "iu":
+        arr = np.array([int(x) for x in re], dtype=dt)
+    else:
+        arr = np.array([float(x) for x in re], dtype=dt)
+    arr = arr.reshape(*sh, c["nvdim"])
     valid = np.array(c["valid"], dtype=bool).reshape(*sh)
     kw = {}
+    aux = dict(arr=arr, valid=valid, n=n_arg, p1=p1a, p2=p2a)
     if c.get("vdims") is not None:
-        kw["vdims"] = c["vdims"]
+        kw["vdims"] = list(c["vdims"])
+        aux["vdims"] = kw["vdims"]
     if c.get("vmap") is not None:
         kw["vdim_mapping"] = dict(c["vmap"])
+        aux["vmap"] = kw["vdim_mapping"]
+    if c.get("dtype"):
+        kw["dtype"] = dt
+    if c.get("unit") is not None:
+        kw["unit"] = c["unit"]
+    aux["copies"] = {k: (v.copy() if isinstance(v, np.ndarray) else (dict(v) if isinstance(v, dict) else list(v)))
+                     for k, v in aux.items() if k != "copies"}
     f = df.Field(mesh, nvdim=c["nvdim"], value=arr, valid=valid, **kw)
-    return f, list(mesh.region.dims)
+    return f, list(mesh.region.dims), aux
+
+
+def aux_unchanged(aux):
+    for k, old in aux["copies"].items():
+        cur = aux[k]
+        if isinstance(cur, np.ndarray):
+            if cur.dtype != old.dtype or not np.array_equal(cur, old):
+                return False
+        elif isinstance(cur, dict):
+            if cur != old or list(cur) != list(old):
+                return False
+        elif [repr(x) for x in cur] != [repr(x) for x in old]:
+            return False
+    return True
+
+
+def read_state(f):
+    """the state the field reports NOW: everything the model needs, primary data only
+    (cell sizes are recomputed from the corners and n, never read from mesh.cell)"""
+    reg = f.mesh.region
+    dims = list(reg.dims)
+    n = [int(k) for k in f.mesh.n]
+    pmin = [F(float(x)) for x in reg.pmin]
+    pmax = [F(float(x)) for x in reg.pmax]
+    cells = [(b - a) / k for a, b, k in zip(pmin, pmax, n)]
+    per = [d in f.mesh.bc for d in dims]
+    arr = np.asarray(f.array)
+    return dict(dims=dims, n=n, pmin=pmin, pmax=pmax, cells=cells, per=per, bc=f.mesh.bc,
+                re=js(np.real(arr).reshape(-1)), im=js(np.imag(arr).reshape(-1)) if arr.dtype.kind == "c" else None,
+                valid=[bool(b) for b in np.asarray(f.valid).reshape(-1)],
+                vdims=None if f.vdims is None else list(f.vdims),
+                vmap=[[k, v] for k, v in f.vdim_mapping.items()], nvdim=int(f.nvdim))
+
+
+def snapshot(f):
+    reg = f.mesh.region
+    return dict(array=f.array.copy(), valid=f.valid.copy(), dtype=str(f.array.dtype), vdtype=str(f.valid.dtype),
+                vdims=None if f.vdims is None else list(f.vdims), vmap=list(f.vdim_mapping.items()),
+                unit=f.unit, pmin=reg.pmin.tolist(), pmax=reg.pmax.tolist(), n=f.mesh.n.tolist(), bc=f.mesh.bc,
+                dims=list(reg.dims), units=list(reg.units),
+                subs={k: (v.pmin.tolist(), v.pmax.tolist()) for k, v in f.mesh.subregions.items()},
+                ids=(id(f.array), id(f.valid), id(f.mesh), id(f.mesh.region), id(f.vdim_mapping)))
+
+
+def snap_equal(a, b):
+    for k in a:
+        if k in ("array", "valid"):
+            if a[k].dtype != b[k].dtype or not np.array_equal(a[k], b[k]):
+                return False
+        elif a[k] != b[k]:
+            return False
+    return True
+
+
+def results_equal(r1, r2):
+    return (r1.nvdim == r2.nvdim and r1.array.dtype == r2.array.dtype and np.array_equal(r1.array, r2.array)
+            and np.array_equal(r1.valid, r2.valid) and r1.vdims == r2.vdims
+            and dict(r1.vdim_mapping) == dict(r2.vdim_mapping))
+
+
+def apply_pre(f, c, dims):
+    """'used, then changed in place': use the objects first, then transform them through public
+    in-place calls.  -> list of steps that raised (they are simply not part of the history)"""
+    nd = len(dims)
+    op = c["op"]
+    # --- use
+    _ = (f.mesh.cell.copy(), f.mesh.dV, f.mesh.region.edges, f.mesh.region.centre)
+    attempt(lambda: f.mesh.index2point((0,) * nd if nd > 1 else 0))
+    attempt(lambda: f.mesh.point2index(f.mesh.region.centre))
+    attempt(lambda: next(iter(f.mesh)))
+    attempt(lambda: f.norm.array.sum())
+    attempt(lambda: get_op(f, op))
+    skipped = []
+    for step in c["pre"]:
+        name, args = step[0], step[1:]
+        if name == "mesh_scale":
+            fac = [float(F(x)) for x in args[0]]
+            st, _r = attempt(lambda: f.mesh.scale(fac[0] if len(fac) == 1 else tuple(fac), inplace=True))
+        elif name == "mesh_translate":
+            st, _r = attempt(lambda: f.mesh.translate(tuple(float(F(x)) for x in args[0]), inplace=True))
+        elif name == "region_scale":
+            fac = [float(F(x)) for x in args[0]]
+            st, _r = attempt(lambda: f.mesh.region.scale(fac[0] if len(fac) == 1 else tuple(fac), inplace=True))
+        elif name == "region_translate":
+            st, _r = attempt(lambda: f.mesh.region.translate(tuple(float(F(x)) for x in args[0]), inplace=True))
+        elif name == "field_rot":
+            a, b, k = args
+            cur = list(f.mesh.region.dims)
+            st, _r = attempt(lambda: f.rotate90(cur[a], cur[b], k=k, inplace=True))
+        elif name == "mesh_rot":
+            a, b, k = args
+            cur = list(f.mesh.region.dims)
+            st, _r = attempt(lambda: f.mesh.rotate90(cur[a], cur[b], k=k, inplace=True))
+        elif name == "array_write":
+            mode, val = args
+
+            def wr():
+                if mode == "add_comp0":
+                    f.array[..., 0] += val
+                elif mode == "first_cell":
+                    f.array[(0,) * nd] = val
+                else:
+                    f.array[...] = f.array * val
+            st, _r = attempt(wr)
+        elif name == "valid_set":
+            st, _r = attempt(lambda: setattr(f, "valid", np.array(args[0], dtype=bool).reshape(tuple(f.mesh.n))))
+        else:
+            st = "err"
+        if st != "ok":
+            skipped.append(name)
+    return skipped
 
 
 def poly_eval(P, x):
@@ -260,12 +428,194 @@ def generate(rng, tier):
                 c["vmap"] = [[l, d] for l, d in zip(names, perm)]
                 c["mapclass"] = "permutation"
                 cases.append(c)
+    cases += hardening_cases(rng, tier)
     return cases
 
 
+def fitting_case(rng, tier, op=None, **kw):
+    """an exact-regime case whose field fits the operator and whose mapping is default or a permutation"""
+    while True:
+        c = gen_case(rng, tier, regime="exact", force_op=op or rng.choice(OPS), **kw)
+        nd, nv = len(c["sh"]), c["nvdim"]
+        fits = dict(grad=nv == 1, div=nv == nd, curl=nv == 3 and nd == 3, laplace=True)[c["op"]]
+        if fits and c["mapclass"] in ("default", "permutation", "scalar", "scalar-mapped", "default-empty"):
+            return c
+
+
+def with_dtype(c, rng, dtname, slope=False):
+    """same case with an integer / unsigned / float32 / complex storage type"""
+    c = dict(c)
+    c["dtype"] = dtname
+    c["stream"] = "dtype"
+    dt = np.dtype(dtname)
+    n = len(c["vals"])
+    sh, nv = c["sh"], c["nvdim"]
+    if dt.kind in "iu":
+        info = np.iinfo(dt)
+        r = rng.random()
+        if slope:
+            # slope 1 per cell on cells of size 2^k: derivatives are halves / quarters, never integers only
+            vals = []
+            for idx in itertools.product(*[range(k) for k in sh]):
+                for comp in range(nv):
+                    vals.append(sum((a + 1 + comp) * j for a, j in enumerate(idx)) % (info.max // 2))
+        elif r < 0.5:
+            lo = 0 if dt.kind == "u" else -9
+            vals = [rng.randint(lo, 9) for _ in range(n)]
+        else:
+            # near the limits of the type (squares and stencil sums overflow in that type)
+            lo = 0 if dt.kind == "u" else max(info.min, -2 ** 40)
+            hi = min(info.max, 2 ** 40)
+            vals = [rng.choice([lo, hi, hi - 1, hi // 2, lo // 2, rng.randint(lo, hi)]) for _ in range(n)]
+        c["vals"] = [g.qs(F(v)) for v in vals]
+    elif dt.kind == "c":
+        c["vals_im"] = [g.qs(F(rng.randint(-24, 24), rng.choice([1, 2]))) for _ in range(n)]
+    else:   # float32: small dyadics are representable
+        c["vals"] = [g.qs(F(rng.randint(-24, 24), rng.choice([1, 2, 4]))) for _ in range(n)]
+    c.pop("poly", None)
+    c.pop("polydeg", None)
+    return c
+
+
+def with_magnitude(c, rng):
+    """tiny and huge magnitudes: every absolute tolerance shows"""
+    c = dict(c)
+    c["stream"] = "magnitude"
+    e = rng.choice([-200, -90, -40, 60, 150, 300])
+    c["vals"] = [g.qs(F(x) * F(2) ** e) for x in c["vals"]]
+    ce = rng.choice([-24, -10, 0, 12, 30])
+    c["cell"] = [g.qs(F(x) * F(2) ** ce) for x in c["cell"]]
+    c["p1"] = [g.qs(F(x) * F(2) ** ce) for x in c["p1"]]
+    c.pop("poly", None)
+    c.pop("polydeg", None)
+    return c
+
+
+def with_representation(c, rng):
+    """other legal argument representations, unusual names, units"""
+    c = dict(c)
+    c["stream"] = "repr"
+    nd, nv = len(c["sh"]), c["nvdim"]
+    c["nrep"] = rng.choice(["tuple", "int32", "uint8", "uint16", "int64", "npscalars"])
+    c["prep"] = rng.choice(["tuple", "ndarray", "int", "ndarray_int", "float32"])
+    if c["prep"] in ("int", "ndarray_int"):
+        # integer-typed corners with cells that are fractions of them
+        c["p1"] = [g.qs(F(rng.randint(-6, 6))) for _ in range(nd)]
+        c["cell"] = [g.qs(F(rng.choice([1, 2, 4]), rng.choice([1, 2, 4]))) for _ in range(nd)]
+        c["sh"] = [k if (F(cl) * k).denominator == 1 else 4 for k, cl in zip(c["sh"], c["cell"])]
+        ncell = math.prod(c["sh"])
+        c["vals"] = [g.qs(F(rng.randint(-24, 24), rng.choice([1, 2]))) for _ in range(ncell * nv)]
+        c["valid"] = [rng.random() > 0.15 for _ in range(ncell)]
+    names = rng.sample(["V", "n", "r", "v", "a", "dV", "cell", "x", "z"], nd)
+    c["dims"] = names
+    # mesh.bc is lower-cased by the Mesh constructor: a capital-letter dimension cannot be periodic
+    c["periodic_axes"] = [a for a in c["periodic_axes"] if len(names[a]) == 1 and names[a].islower()]
+    c["units"] = [rng.choice(["m", "nm", "", "s", "rad"]) for _ in range(nd)]
+    c["unit"] = rng.choice([None, "", "A/m", "T"])
+    if nv > 1:
+        labels = rng.sample(["m", "mx", "mxy", "mxyz", "e", "e1", "n0", "vv"], nv)    # prefixes of one another
+        c["vdims"] = labels
+        if nv == nd:
+            perm = names[:]
+            rng.shuffle(perm)
+            pairs = [[l, d] for l, d in zip(labels, perm)]
+            pairs.reverse()                                  # insertion order differs from vdims
+            c["vmap"] = pairs
+            c["mapclass"] = "permutation"
+        else:
+            c["vmap"] = None
+            c["mapclass"] = "default-empty"
+    else:
+        c["vdims"], c["vmap"], c["mapclass"] = None, None, "scalar"
+    c.pop("poly", None)
+    c.pop("polydeg", None)
+    return c
+
+
+def with_history(c, rng):
+    """used, then changed in place through public calls, then the operator"""
+    c = dict(c)
+    c["stream"] = "history"
+    nd, nv, sh = len(c["sh"]), c["nvdim"], c["sh"]
+    ncell = math.prod(sh)
+    steps = []
+    pow2 = [F(1, 4), F(1, 2), F(2), F(4), F(-1), F(-2), F(-1, 2)]
+    for _ in range(rng.randint(1, 3)):
+        kind = rng.choice(["mesh_scale", "mesh_scale", "mesh_translate", "region_scale", "region_translate",
+                           "field_rot", "mesh_rot", "array_write", "valid_set"])
+        if kind in ("mesh_scale", "region_scale"):
+            fac = [rng.choice(pow2)] if rng.random() < 0.4 else [rng.choice(pow2) for _ in range(nd)]
+            steps.append([kind, [g.qs(x) for x in fac]])
+        elif kind in ("mesh_translate", "region_translate"):
+            steps.append([kind, [g.qs(F(rng.randint(-12, 12), 4)) for _ in range(nd)]])
+        elif kind == "field_rot" and nd >= 2:
+            a, b = rng.sample(range(nd), 2)
+            steps.append([kind, a, b, rng.choice([1, 1, 2, 3, -1, 5])])
+        elif kind == "mesh_rot" and nd >= 2:
+            a, b = rng.sample(range(nd), 2)
+            # an odd turn of the mesh alone keeps the field consistent only if the two axes have equal n
+            k = rng.choice([1, 3, -1]) if sh[a] == sh[b] else 2
+            steps.append([kind, a, b, k])
+        elif kind == "array_write":
+            steps.append([kind, rng.choice(["add_comp0", "first_cell", "times"]), rng.choice([2, 3, -4])])
+        elif kind == "valid_set":
+            steps.append([kind, [rng.random() > 0.3 for _ in range(ncell)]])
+    if not steps:
+        steps.append(["mesh_scale", [g.qs(F(-2))]])
+    # rotations exchange the periodic roles; keep the history free of periodic axes when it rotates
+    if any(s_[0] in ("field_rot", "mesh_rot") for s_ in steps):
+        c["periodic_axes"] = []
+    c["pre"] = steps
+    c.pop("poly", None)
+    c.pop("polydeg", None)
+    return c
+
+
+def hardening_cases(rng, tier):
+    q = tier == "quick"
+    out = []
+    # storage types: integer (signed / unsigned / narrow), float32, complex
+    dts = INT_DTYPES + ["float32", "complex128", "complex64"]
+    for op in OPS:
+        for dtname in dts:
+            for rep in range(2 if q else 12):
+                base = fitting_case(rng, tier, op=op)
+                out.append(with_dtype(base, rng, dtname, slope=(rep == 0)))
+    # the slope-1/2 line of the fix commits: integer values j on cells of size 2
+    for dtname in ("int64", "uint8", "int16"):
+        out.append(dict(op="grad", regime="exact", sh=[5], cell=["2/1"], p1=["0/1"], periodic_axes=[], dims=None,
+                        nvdim=1, vdims=None, vmap=None, mapclass="scalar", valid=[True] * 5,
+                        vals=[g.qs(F(j)) for j in range(5)], dtype=dtname, stream="dtype"))
+        out.append(dict(op="laplace", regime="exact", sh=[4], cell=["2/1"], p1=["0/1"], periodic_axes=[], dims=None,
+                        nvdim=1, vdims=None, vmap=None, mapclass="scalar", valid=[True] * 4,
+                        vals=[g.qs(F(j)) for j in (3, 1, 0, 4)], dtype=dtname, stream="dtype"))
+    for _ in range(40 if q else 400):
+        out.append(with_magnitude(fitting_case(rng, tier), rng))
+    for _ in range(50 if q else 500):
+        out.append(with_representation(fitting_case(rng, tier), rng))
+    for _ in range(110 if q else 1100):
+        base = fitting_case(rng, tier)
+        if rng.random() < 0.2:
+            base = with_dtype(base, rng, rng.choice(["int64", "int32", "complex128", "float32"]))
+        out.append(with_history(base, rng))
+    return out
+
+
 # ----------------------------------------------------------------------------- oracle helpers
-def comp_field(f, cidx):
-    return df.Field(f.mesh, nvdim=1, value=f.array[..., cidx:cidx + 1].copy(), valid=f.valid)
+def fresh_mesh(f):
+    """a newly constructed mesh from the corners / n / bc the field reports (no shared caches)"""
+    reg = f.mesh.region
+    region = df.Region(p1=reg.pmin.tolist(), p2=reg.pmax.tolist(), dims=list(reg.dims))
+    return df.Mesh(region=region, n=[int(k) for k in f.mesh.n], bc=f.mesh.bc)
+
+
+def comp_field(f, cidx, mesh=None):
+    """component cidx as a scalar field in floating point (the values are the same numbers whatever the
+    storage type of f), on a fresh mesh"""
+    a = np.asarray(f.array[..., cidx:cidx + 1])
+    dt = np.complex128 if a.dtype.kind == "c" else np.float64
+    return df.Field(mesh if mesh is not None else fresh_mesh(f), nvdim=1, value=a.astype(dt), valid=f.valid.copy(),
+                    dtype=dt)
 
 
 def textbook(op, f, dims):
@@ -281,7 +631,7 @@ def textbook(op, f, dims):
         cols = []
         for cidx in range(nv):
             s = comp_field(f, cidx)
-            acc = np.zeros(tuple(f.mesh.n))
+            acc = np.zeros(tuple(f.mesh.n), dtype=complex if f.array.dtype.kind == 'c' else float)
             for d in dims:
                 acc = acc + s.diff(d, order=2).array[..., 0]
             cols.append(acc)
@@ -292,7 +642,7 @@ def textbook(op, f, dims):
         return None
     ax_of = [dims.index(vm[v]) for v in f.vdims]
     if op == "div":
-        acc = np.zeros(tuple(f.mesh.n))
+        acc = np.zeros(tuple(f.mesh.n), dtype=complex if f.array.dtype.kind == 'c' else float)
         for cidx, a in enumerate(ax_of):
             acc = acc + comp_field(f, cidx).diff(dims[a]).array[..., 0]
         return acc[..., np.newaxis]
@@ -321,13 +671,13 @@ def result_by_axis(res, dims):
 
 
 def maxabs(a):
-    a = np.asarray(a, dtype=float)
+    a = np.asarray(a)
     return float(np.max(np.abs(a))) if a.size else 0.0
 
 
 def close(a, b, tol):
-    a = np.asarray(a, dtype=float)
-    b = np.asarray(b, dtype=float)
+    a = np.asarray(a)
+    b = np.asarray(b)
     if a.shape != b.shape:
         return False
     if a.size == 0:
@@ -367,8 +717,16 @@ def mapping_is_bijection(f, dims):
 
 
 # ----------------------------------------------------------------------------- one case
+def coq_record(exact, op, stt, vals, obs_s):
+    in_vm = g.lst([g.pair(g.s(k), g.s(v)) for k, v in stt["vmap"]])
+    return (f'(COp {g.b(exact)} {COQ_OP[op]} {g.nl(stt["n"])} {g.ql(stt["cells"])} {g.bl(stt["per"])} '
+            f'{g.sl(stt["dims"])} {g.nat(stt["nvdim"])} {g.opt(stt["vdims"], g.sl)} {in_vm} '
+            f'{g.ql(vals)} {g.bl(stt["valid"])} {obs_s})')
+
+
 def run_case(c):
-    rec = dict(kind=f'{c["op"]}/{c["regime"]}', case=c, oracle=[], tags=[])
+    rec = dict(kind=f'{c["op"]}/{c["regime"]}' + (f'/{c["stream"]}' if c.get("stream") else ""),
+               case=c, oracle=[], tags=[])
     op = c["op"]
     exact = c["regime"] == "exact"
     st, r = attempt(lambda: build(c))
@@ -377,15 +735,47 @@ def run_case(c):
         rec.update(kind="unbuildable", obs=dict(err=r), coq=None, key=f"unbuildable/{r}", size=size,
                    nontrivial=False)
         return rec
-    f, dims = r
-    sh, nd, nv = c["sh"], len(c["sh"]), c["nvdim"]
-    cells = [F(float(x)) for x in f.mesh.cell]
-    hmin = min(float(x) for x in f.mesh.cell)
+    f, dims, aux = r
+    flag = rec["oracle"].append
+    skipped = []
+    if c.get("pre"):
+        skipped = apply_pre(f, c, dims)
+        if any(s_[0] in ("field_rot", "mesh_rot") for s_ in c["pre"]):
+            exact = False        # Region.rotate90 evaluates cos / sin in floating point
+    stt = read_state(f)
+    dims = stt["dims"]
+    sh, nd, nv = stt["n"], len(stt["n"]), stt["nvdim"]
+    hmin = min(float(x) for x in stt["cells"])
     order = 2 if op == "laplace" else 1
     vmax = maxabs(f.array)
     scale = 16 * nd * vmax / hmin ** order
     tol = 0.0 if exact else TOL * scale
+    dt = f.array.dtype
+    before = snapshot(f)
     st, res = attempt(lambda: get_op(f, op))
+    after = snapshot(f)
+    if not snap_equal(before, after):
+        flag("operand-changed-by-call")
+    if not aux_unchanged(aux) and not c.get("pre"):
+        flag("caller-container-changed")
+    # the same call again; a call on another field of the same shape in between
+    st2, res2 = attempt(lambda: get_op(f, op))
+    if st2 != st or (st == "ok" and not results_equal(res, res2)):
+        flag("repeated-call-differs")
+    if st == "ok":
+        if np.shares_memory(res.array, f.array) or np.shares_memory(res.valid, f.valid):
+            flag("result-shares-memory-with-operand")
+        other_arr = (np.roll(f.array, 1, axis=0) * 2 + 1).astype(f.array.dtype) if dt.kind != "u" else \
+            np.roll(f.array, 1, axis=0)
+        sto, gfield = attempt(lambda: df.Field(f.mesh, nvdim=nv, value=other_arr, valid=~f.valid if not np.all(f.valid) else f.valid,
+                                               vdims=f.vdims, vdim_mapping=dict(f.vdim_mapping), dtype=dt))
+        if sto == "ok":
+            attempt(lambda: get_op(gfield, op))
+            st3, res3 = attempt(lambda: get_op(f, op))
+            if st3 != "ok" or not results_equal(res, res3):
+                flag("call-on-other-field-leaks-state")
+            if not snap_equal(before, snapshot(f)):
+                flag("operand-changed-by-call")
     must_refuse = should_refuse(op, nd, nv, f, dims)
     fully_valid = bool(np.all(f.valid))
     bij = mapping_is_bijection(f, dims) if nv > 1 or (nv == 1 and f.vdims) else False
@@ -393,33 +783,42 @@ def run_case(c):
     # the Laplacian of a vector field without component labels
     free = (op == "div" and not must_refuse and nv > 1 and not bij) or \
            (op == "laplace" and nv > 1 and f.vdims is None)
+    cplx = stt["im"] is not None
     if st != "ok":
         obs = dict(refused=res)
         if not must_refuse and not free:
-            rec["oracle"].append("fitting-field-refused")
-        coq_obs = "None"
+            flag("fitting-field-refused")
+        obs_re = obs_im = "None"
     else:
         if must_refuse:
-            rec["oracle"].append("misfit-not-refused")
-        obs = dict(nvdim=int(res.nvdim), array=js(res.array.reshape(-1)), vdims=res.vdims,
+            flag("misfit-not-refused")
+        out = np.asarray(res.array)
+        if out.dtype.kind not in "fc":
+            flag("result-not-floating-point")
+        o_re = js(np.real(out).reshape(-1))
+        o_im = js(np.imag(out).reshape(-1)) if out.dtype.kind == "c" else None
+        if cplx != (o_im is not None):
+            flag("result-complexness-differs-from-field")
+        obs = dict(nvdim=int(res.nvdim), array=o_re, array_im=o_im, vdims=res.vdims, dtype=str(out.dtype),
                    vmap=[[k, v] for k, v in res.vdim_mapping.items()])
         vd_s = g.opt(res.vdims, g.sl)
         vm_s = g.lst([g.pair(g.s(k), g.s(v)) for k, v in res.vdim_mapping.items()])
-        coq_obs = f"(Some ({g.nat(res.nvdim)}, {g.ql(obs['array'])}, {vd_s}, {vm_s}))"
+        obs_re = f"(Some ({g.nat(res.nvdim)}, {g.ql(o_re)}, {vd_s}, {vm_s}))"
+        obs_im = f"(Some ({g.nat(res.nvdim)}, {g.ql(o_im if o_im is not None else ['0/1'] * len(o_re))}, {vd_s}, {vm_s}))"
         oracle_ok(rec, c, f, dims, res, op, tol, exact, fully_valid, scale)
     rec["oracle"] = sorted(set(rec["oracle"]))
-    per = [a in c["periodic_axes"] for a in range(nd)]
-    in_vm = g.lst([g.pair(g.s(k), g.s(v)) for k, v in f.vdim_mapping.items()])
-    coq = (f'COp {g.b(exact)} {COQ_OP[op]} {g.nl(sh)} {g.ql(cells)} {g.bl(per)} {g.sl(dims)} {g.nat(nv)} '
-           f'{g.opt(f.vdims, g.sl)} {in_vm} {g.ql(c["vals"])} {g.bl(c["valid"])} {coq_obs}')
+    coq = coq_record(exact, op, stt, stt["re"], obs_re)
+    if cplx:
+        coq = f"(CBoth {coq} {coq_record(exact, op, stt, stt['im'], obs_im)})"
     if free and (st != "ok" or op == "laplace"):
         coq = None      # unspecified outcome: both a refusal and the textbook value are admissible
     mask_cls = "all" if fully_valid else "masked"
-    key = (f'{op}/{c["regime"]}/{tuple(sh)}/{nv}/{c["mapclass"]}/{"".join(str(int(b)) for b in per)}/'
-           f'{mask_cls}/{"poly%d" % c["polydeg"] if c.get("poly") else "rand"}/{st}/'
-           f'{hash(tuple(c["vals"][:6])) % 5}')
+    key = (f'{op}/{c["regime"]}/{tuple(sh)}/{nv}/{c["mapclass"]}/{"".join(str(int(b)) for b in stt["per"])}/'
+           f'{mask_cls}/{"poly%d" % c["polydeg"] if c.get("poly") else "rand"}/{st}/{dt}/{c.get("stream", "")}/'
+           f'{"+".join(s_[0] for s_ in c.get("pre", []))}/{hash(tuple(c["vals"][:6])) % 5}')
     rec.update(obs=obs, coq=coq, key=key, size=size, nontrivial=bool(size > 1))
     rec["refused"] = st != "ok"
+    rec["meta_pre"] = dict(skipped=skipped) if c.get("pre") else None
     return rec
 
 
@@ -428,7 +827,7 @@ def oracle_ok(rec, c, f, dims, res, op, tol, exact, fully_valid, scale):
     flag = rec["oracle"].append
     # --- shape of the result
     want_nv = dict(grad=nd, div=1, curl=3, laplace=nv)[op]
-    if res.nvdim != want_nv or res.array.shape != tuple(c["sh"]) + (want_nv,):
+    if res.nvdim != want_nv or res.array.shape != tuple(int(k) for k in f.mesh.n) + (want_nv,):
         flag("result-shape")
         return
     if not res.mesh == f.mesh:
@@ -481,8 +880,13 @@ def oracle_ok(rec, c, f, dims, res, op, tol, exact, fully_valid, scale):
         h = hash(tuple(c["vals"][:8]))
         a, b = pairs[h % len(pairs)]
         k = 1 + (h // 7) % 3
-        pa = (a in c["periodic_axes"]) == (b in c["periodic_axes"])
-        if pa:
+        pa = (dims[a] in f.mesh.bc) == (dims[b] in f.mesh.bc)
+        # Field.rotate90 keeps the storage type: an unsigned vector field, or a signed one holding the
+        # most negative value of its type, cannot hold the rotated components (C12's concern, not C05's)
+        dtk = f.array.dtype
+        rot_representable = dtk.kind in "fc" or nv == 1 or \
+            (dtk.kind == "i" and int(f.array.min()) > np.iinfo(dtk).min)
+        if pa and rot_representable:
             st1, fr = attempt(lambda: f.rotate90(dims[a], dims[b], k=k))
             st2, rr = attempt(lambda: res.rotate90(dims[a], dims[b], k=k))
             if st1 == "ok" and st2 == "ok":
